@@ -17,9 +17,9 @@ DROP_KW = {'typename', 'template', 'inline', 'BOOST_NOINLINE', 'BOOST_FORCEINLIN
 EXC_RET = '( HandledEnum ) 0'
 
 def back_xform(templates, typevars=None, refparams=('fsm',), throwers=(), members=(), methods=(),
-               rewrites=(), exc_ret=EXC_RET, enums=None, pre_rewrites=(), try_=False, drop=DROP_KW, refvals=(), post=None, foreach=False, size_of=None, guards=None):
+               rewrites=(), exc_ret=EXC_RET, enums=None, pre_rewrites=(), try_=False, drop=DROP_KW, refvals=(), post=None, foreach=False, size_of=None, guards=None, pp_defined=()):
     def xf(tk, F):
-        tk = X.rule_pp(tk, F)
+        tk = X.rule_pp(tk, F, pp_defined)
         tk = X.rule_ns(tk, F)
         if pre_rewrites: tk = X.rule_rewrites(tk, F, pre_rewrites)
         tk = X.rule_drop(tk, F, drop)
